@@ -40,8 +40,7 @@ func (a *Auth) Unpack(r io.Reader) error {
 		a.Code = codes.Success
 		return nil
 	}
-	restBuffer := make([]byte, a.FixHeader.RemainLength)
-	_, err := io.ReadFull(r, restBuffer)
+	restBuffer, err := readRemaining(r, a.FixHeader.RemainLength)
 	if err != nil {
 		return codes.ErrMalformed
 	}
